@@ -40,6 +40,7 @@ func runC02(w *World, r *Report) {
 	}
 	ruleKind(w, r)
 	rulePairBool(w, r)
+	ruleOpResolve(w, r)
 }
 
 // runC10Core re-runs the folding rules of C10.
@@ -429,7 +430,7 @@ func ruleDirEq(w *World, r *Report) {
 	}
 }
 
-var c02Witnesses = []Witness{
+var c02Witnesses = append(wave3WitnessesC02, []Witness{
 	{Name: "flatten-merges-or-into-and", Rule: "R-FLATTEN", Edits: []Edit{
 		{File: "compiler.go", Old: "		if isAndOpNode(cn) == rootOpType {\n			children = append(children, child.children...)\n			continue\n		}\n		return", New: "		if isAndOpNode(cn) == rootOpType || len(child.children) == 1 {\n			children = append(children, child.children...)\n			continue\n		}\n		return"}}},
 	{Name: "flatten-drops-non-bool-children", Rule: "R-FLATTEN", Edits: []Edit{
@@ -446,4 +447,4 @@ var c02Witnesses = []Witness{
 		{File: "parser.go", Old: "				for _, opt := range optimizations {\n					p.conf.CompileOptions[opt] = enabled\n				}", New: "				for _, opt := range optimizations[:3] {\n					p.conf.CompileOptions[opt] = enabled\n				}"}}},
 	{Name: "benign-flatten-positive-kind-test", Benign: true, Edits: []Edit{
 		{File: "compiler.go", Old: "		if !isBoolOpNode(cn) {\n			return\n		}\n		if isAndOpNode(cn) == rootOpType {\n			children = append(children, child.children...)\n			continue\n		}\n		return", New: "		if isBoolOpNode(cn) && rootOpType == isAndOpNode(cn) {\n			children = append(children, child.children...)\n			continue\n		}\n		return"}}},
-}
+}...)
